@@ -336,6 +336,7 @@ class ExecSlice:
                                                               "get_exitcodes_terminated_worker",
                                                               "self._start_executor_manager_thread"])
         comp.unroll = {"pending": n_ids, "processes": n_workers}
+        comp.declare_auto_fields(S)
         comp.globals = {"_global_shutdown": ("c", False), "_CURRENT_DEPTH": ("c", 0), "_process_worker": ("c", "<worker>"),
                         "sys": ("o", "sysmod"), "queue": ("o", "queuemod"), "struct": ("o", "structmod"),
                         "wait": ("prim", "waiter", "wait"), "kill_process_tree": ("prim", "ptable", "kill")}
